@@ -663,6 +663,17 @@ Section UtlruBridge.
     exact (g_run_refines h 0%Z (ttll_init cap ttl) (tl_init true cap ttl)
              (tl_inv_init true cap ttl 0%Z Hc) (tt_rep_init true cap ttl Hc)).
   Qed.
+
+  (* ---- the constructor, translated (member initialisers + body): it builds the literal machine's initial state,
+     so the whole-history theorem starts from what the source constructs ---- *)
+  Lemma g_init_ok (ttl : Z) (cap : nat) : (g_init ttl cap : ttll K V) = ttll_init cap ttl.
+  Proof. reflexivity. Qed.
+  Theorem generated_utlru_constructed_no_UB_on_any_history : forall cap ttl (h : list (ev K V)),
+      1 <= cap -> mono_from 0 h ->
+      exists l', run_res g_step (g_init ttl cap) h = Ok (l', snd (run tl_step (tl_init true cap ttl) h)) /\
+                 tt_rep true l' (fst (run tl_step (tl_init true cap ttl) h)).
+  Proof. intros cap ttl h Hc Hm. rewrite g_init_ok. apply generated_utlru_no_UB_on_any_history; auto. Qed.
 End UtlruBridge.
 
 Print Assumptions generated_utlru_no_UB_on_any_history.
+Print Assumptions generated_utlru_constructed_no_UB_on_any_history.
